@@ -293,6 +293,57 @@ func c33SplitYday(ayday *Term) (amonth, mday *Term) {
 	return
 }
 
+// c33MonthOfYday: the standard month (1..12) as a function of the March-based day of year in
+// [0,366]: an ite chain over the month starts (table computed with Go's own formulas).
+func c33MonthOfYday(ayday *Term) *Term {
+	goMonth := func(yd uint32) int64 {
+		d := 2141*yd + 197913
+		m := int64(d >> 16)
+		if yd >= c33MarDec {
+			m -= 12
+		}
+		return m
+	}
+	if ayday.IsConst() {
+		return c33c(goMonth(uint32(ayday.Val.Int64())))
+	}
+	r := c33c(goMonth(366))
+	for yd := int64(365); yd >= 0; yd-- {
+		if goMonth(uint32(yd)) != goMonth(uint32(yd+1)) {
+			r = Ite(IntCmp("<", ayday, c33c(yd+1)), c33c(goMonth(uint32(yd))), r)
+		}
+	}
+	if !r.IsConst() {
+		ivals[r] = ival{bi(1), bi(12)}
+	}
+	return r
+}
+
+// c33CivilOf: (year, month, day) of an absolute day number, exactly as Time.Year/Month/Day compute
+// them. The triple is remembered: time.dateToAbsDays applied to exactly these three terms is the
+// day number itself (days-of-civil is the left inverse of civil-of-days; checked for every day of
+// years -1..3100 against the real time package in c33SelfTest, and only used inside that range).
+var c33Civil = map[[3]*Term]*Term{}
+
+func c33CivilOf(days *Term) (y, m, d *Term) {
+	cen, cy, ay := c33SplitDays(days)
+	jf := Ite(IntCmp("<=", c33c(c33MarDec), ay), c33c(1), c33c(0))
+	if !jf.IsConst() {
+		setIv(jf, bi(0), bi(1))
+	}
+	y = c33norm(IntBin("+", IntBin("+", IntBin("-", IntBin("*", c33c(100), cen), c33c(c33AbsYears)), cy), jf))
+	m = c33MonthOfYday(ay)
+	_, d = c33SplitYday(ay)
+	d = c33norm(d)
+	if !days.IsConst() {
+		c33Civil[[3]*Term{y, m, d}] = days
+	}
+	return
+}
+
+// absolute day numbers of -0001-01-01 and 3101-01-01 (the verified range of the inverse law)
+var c33CivilLo, c33CivilHi *big.Int
+
 // ---------------------------------------------------------------- self test
 
 var c33Tested bool
@@ -324,6 +375,15 @@ func c33SelfTest() {
 			panic("x_c33: dateToAbsDays month trick differs from the classical form")
 		}
 	}
+	// (a2) days-of-civil(civil-of-days(n)) = n for every day of years -1..3100 (real time package)
+	for t, end := time.Date(-1, 1, 1, 0, 0, 0, 0, time.UTC), time.Date(3101, 1, 1, 0, 0, 0, 0, time.UTC); t.Before(end); t = t.AddDate(0, 0, 1) {
+		y, m, d := t.Date()
+		if !time.Date(y, m, d, 0, 0, 0, 0, time.UTC).Equal(t) {
+			panic(fmt.Sprintf("x_c33: time.Date(t.Date()) != t at %v", t))
+		}
+	}
+	c33CivilLo = c33DateToAbsDays(c33c(-1), c33c(1), c33c(1)).Val
+	c33CivilHi = c33DateToAbsDays(c33c(3101), c33c(1), c33c(1)).Val
 	// (b) the term builders, run on constants, against the real time package
 	t := time.Date(1, 1, 1, 0, 0, 0, 0, time.UTC)
 	end := time.Date(3101, 1, 1, 0, 0, 0, 0, time.UTC)
@@ -372,7 +432,7 @@ func c33Body(fr *frame, name string, self externalFn, a []value) value {
 
 func c33AnySym(a []value) bool {
 	for _, v := range a {
-		if isSym(v) {
+		if hasSym(v) {
 			return true
 		}
 	}
@@ -402,6 +462,9 @@ func init() {
 		if !c33bounded(year, nlim, lim) || !c33bounded(month, bi(1), bi(12)) || !c33bounded(day, nlim, lim) {
 			return nil
 		}
+		if n, ok := c33Civil[[3]*Term{c33norm(year), c33norm(month), c33norm(day)}]; ok && c33bounded(n, c33CivilLo, c33CivilHi) {
+			return mkIntVal(types.Uint64, wrapKind(types.Uint64, n))
+		}
 		days := c33DateToAbsDays(year, month, day)
 		return mkIntVal(types.Uint64, wrapKind(types.Uint64, days))
 	})
@@ -420,6 +483,53 @@ func init() {
 		}
 		am, md := c33SplitYday(ay)
 		return tuple{mkIntVal(types.Int, am), mkIntVal(types.Int, md)}
+	})
+	// Time.Month / Time.Year: same computation as the source (absSec -> days -> split), with the
+	// month written as a function of the March-based day of year (so that its interval is [1,12])
+	// and the year sum normalised (the +-absoluteYears constants cancel).
+	timeDays := func(fr *frame, a []value) *Term {
+		recv := fr.fn.Signature.Recv().Type()
+		absFn := fr.fn.Prog.LookupMethod(recv, fr.fn.Pkg.Pkg, "absSec")
+		if absFn == nil {
+			return nil
+		}
+		absV := callSSA(fr.i, fr, token.NoPos, absFn, []value{a[0]}, nil)
+		if !isSym(absV) {
+			return nil
+		}
+		abs := intTermOf(absV)
+		if !c33bounded(abs, bi(0), new(big.Int).Lsh(bi(1), 64)) {
+			return nil
+		}
+		days := c33div(abs, 86400)
+		if !c33bounded(days, bi(0), c33Big) {
+			return nil
+		}
+		return days
+	}
+	reg("(time.Time).Month", func(fr *frame, a []value) value {
+		days := timeDays(fr, a)
+		if days == nil {
+			return nil
+		}
+		_, m, _ := c33CivilOf(days)
+		return mkIntVal(types.Int, m)
+	})
+	reg("(time.Time).Year", func(fr *frame, a []value) value {
+		days := timeDays(fr, a)
+		if days == nil {
+			return nil
+		}
+		y, _, _ := c33CivilOf(days)
+		return mkIntVal(types.Int, wrapKind(types.Int, y))
+	})
+	reg("(time.Time).Day", func(fr *frame, a []value) value {
+		days := timeDays(fr, a)
+		if days == nil {
+			return nil
+		}
+		_, _, d := c33CivilOf(days)
+		return mkIntVal(types.Int, d)
 	})
 	reg("(time.absSeconds).days", func(fr *frame, a []value) value {
 		abs := intTermOf(a[0])
@@ -460,6 +570,36 @@ func c33tz(t *Term, depth int) int {
 	return 0
 }
 
+// c33DisjointOr: a|b (= a^b) = a+b when both are non-negative and the set bits cannot overlap:
+// one operand is a multiple of 2^z by term structure and the other lies in [0,2^z) - by
+// intervals, else by asking the solver under the current path condition (cached; consumes
+// no decision).
+func c33DisjointOr(k types.BasicKind, a, b *Term) value {
+	within := func(t *Term, bound *big.Int) bool { // 0 <= t < bound
+		if i := iv(t); i.lo != nil && i.lo.Sign() >= 0 && i.hi.Cmp(bound) < 0 {
+			return true
+		}
+		if eng == nil {
+			return false
+		}
+		bad := Or(IntCmp("<", t, c33c(0)), IntCmp("<=", ConstInt(bound), t))
+		return !eng.feasible(bad)
+	}
+	_, hi := kindRange(k)
+	top := new(big.Int).Add(hi, bi(1))
+	disjoint := func(x, y *Term) bool { // y < 2^tz(x)
+		z := c33tz(x, 0)
+		if z <= 0 || z >= 64 {
+			return false
+		}
+		return within(y, new(big.Int).Lsh(bi(1), uint(z))) && within(x, top)
+	}
+	if disjoint(a, b) || disjoint(b, a) {
+		return mkIntVal(k, wrapKind(k, c33norm(IntBin("+", a, b))))
+	}
+	return nil
+}
+
 func init() {
 	prev := intBinopExt
 	intBinopExt = func(op token.Token, k types.BasicKind, a, b *Term) value {
@@ -471,18 +611,7 @@ func init() {
 		if op != token.OR && op != token.XOR {
 			return nil
 		}
-		ia, ib := iv(a), iv(b)
-		if ia.lo == nil || ib.lo == nil || ia.lo.Sign() < 0 || ib.lo.Sign() < 0 {
-			return nil
-		}
-		disjoint := func(hi, lo *Term) bool { // lo < 2^tz(hi)
-			z := c33tz(hi, 0)
-			return z > 0 && iv(lo).hi.Cmp(new(big.Int).Lsh(bi(1), uint(z))) < 0
-		}
-		if disjoint(a, b) || disjoint(b, a) {
-			return mkIntVal(k, wrapKind(k, IntBin("+", a, b)))
-		}
-		return nil
+		return c33DisjointOr(k, a, b)
 	}
 }
 
@@ -572,5 +701,72 @@ func init() {
 			return prev(fr, a)
 		}
 		return mkStr(out)
+	}
+}
+
+// ---------------------------------------------------------------- pre-hook: exact folding of
+// shifts / masks / division by constants (enabled by the harness helper core.vdEnable)
+
+var c33On bool
+
+func init() {
+	externals[modPath+"/core.vdEnable"] = func(fr *frame, a []value) value { c33On = true; return nil }
+}
+
+func c33Pre(op token.Token, k types.BasicKind, a, b *Term) value {
+	if !c33On || !isIntSort(a.Sort) || !isIntSort(b.Sort) {
+		return nil
+	}
+	ti := func(t *Term) value { return mkIntVal(k, wrapKind(k, t)) }
+	nonneg := func(t *Term) bool { i := iv(t); return i.lo != nil && i.lo.Sign() >= 0 }
+	small := func(t *Term) (int64, bool) { // positive constant below 2^62
+		if t.IsConst() && t.Val.Sign() > 0 && t.Val.BitLen() <= 62 {
+			return t.Val.Int64(), true
+		}
+		return 0, false
+	}
+	switch op {
+	case token.QUO:
+		if c, ok := small(b); ok && nonneg(a) && !a.IsConst() {
+			return ti(c33div(a, c))
+		}
+	case token.REM:
+		if c, ok := small(b); ok && nonneg(a) && !a.IsConst() {
+			return ti(c33mod(a, c))
+		}
+	case token.SHR:
+		if b.IsConst() && b.Val.Sign() >= 0 && b.Val.Cmp(bi(62)) < 0 && !a.IsConst() && iv(a).lo != nil {
+			return ti(c33div(a, int64(1)<<uint(b.Val.Int64())))
+		}
+	case token.AND:
+		c, other := b, a
+		if a.IsConst() {
+			c, other = a, b
+		}
+		if c.IsConst() && !other.IsConst() && nonneg(other) {
+			if n, ok := isPow2Minus1(c.Val); ok && n < 62 {
+				return ti(c33mod(other, int64(1)<<uint(n)))
+			}
+		}
+	case token.OR, token.XOR:
+		if a.IsConst() && b.IsConst() {
+			return nil
+		}
+		if v := c33DisjointOr(k, a, b); v != nil {
+			return v
+		}
+	}
+	return nil
+}
+
+func init() {
+	prev := intBinopPre
+	intBinopPre = func(op token.Token, k types.BasicKind, a, b *Term) value {
+		if prev != nil {
+			if v := prev(op, k, a, b); v != nil {
+				return v
+			}
+		}
+		return c33Pre(op, k, a, b)
 	}
 }
